@@ -312,8 +312,10 @@ def extra_configs(prop, tier, seed):
         for kind in ['HS', 'IHS', 'GP', 'HC', 'ABC', 'CS', 'FA', 'SA', 'BHA', 'PSO', 'WCA']:
             if prop == 'C12' and kind != 'GP':
                 continue
-            for c in [c for c in pool if c['kind'] == kind][:2 if tier == 'quick' else 6]:
-                extra.append(dict(c, hook='relist', adv=0.0, n_iter=max(c['n_iter'], 4), n_agents=max(c['n_agents'], 4),
+            for j_, c in enumerate([c for c in pool if c['kind'] == kind][:3 if tier == 'quick' else 8]):
+                # (the first run of each kind is long enough for the event not to depend on the seed: a member of the new list that
+                # becomes the best individual while the optimizer still holds the old list)
+                extra.append(dict(c, hook='relist', adv=0.0, n_iter=max(c['n_iter'], 4) if j_ else 20, n_agents=max(c['n_agents'], 4 if j_ else 6),
                                   objective='sphere' if kind != 'WCA' else 'positive', store_best_only=False))
     if prop in ('C04', 'C19', 'C20'):
         # an objective with a hard constraint (+inf on part of the box): what is recorded / returned is what was there
